@@ -145,7 +145,7 @@ theorem fill_get (p : Bytes) (v i : Nat) (hp : p ≠ []) (hi : i < (fillWithRepe
 
 theorem hashIter_length (h : Bytes → Bytes) (hh : ∀ x, (h x).length = 20) :
     ∀ k x, x.length = 20 → (hashIter h x k).length = 20
-  | 0, x, hx => hx
+  | 0, _, hx => hx
   | k+1, x, _hx => hashIter_length h hh k (h x) (hh x)
 
 theorem pbkdfLoop_length (h : Bytes → Bytes) (hh : ∀ x, (h x).length = 20) (v : Nat) (d : Bytes) (r : Nat) :
